@@ -203,6 +203,11 @@ func (c *SchemaCtx) IssueFromUnknownError(err error) *ZogIssue {
 	if !ok {
 		return c.Issue().SetError(err)
 	}
+	// issues built outside of a schema (e.g. the decode errors of zjson & zhttp) don't know the type of the schema that is being executed.
+	// Without it the issue formatters can't find a message
+	if zerr.Dtype == "" {
+		zerr.Dtype = c.DType
+	}
 	return zerr
 }
 
